@@ -180,7 +180,7 @@ class SrcInfo:
             rest = '\n'.join(lines[line - 1:line + 6])[col - 1:]
             hdr = rest.split('{')[0]
             hdr = re.sub(r'^impl\s*(<[^>]*(?:<[^>]*>[^>]*)*>)?\s*', '', hdr.strip())
-            hdr = hdr.split(' where ')[0].strip()
+            hdr = re.split(r'\bwhere\b', hdr)[0].strip()
             m = re.match(r'^(.*?)\s+for\s+(.*)$', hdr, re.S)
             if m:
                 return (_last_seg(m.group(1)) + _trait_args(m.group(1)), _last_seg(m.group(2)))
